@@ -437,17 +437,22 @@ theorem phaseTasks_sameCtl (sem : Sem σ δ) (s : RState σ δ) : SameCtl s (pha
   cases h : (sem.plan s.now s.store).2.2 <;> simp only [phaseTasks, h] <;>
     exact ⟨rfl, rfl, rfl, rfl, rfl, rfl, rfl⟩
 
+theorem phaseForce_sameCtl (sem : Sem σ δ) (s : RState σ δ) : SameCtl s (phaseForce sem s).st := by
+  cases h : (applyWrites s.forced s.io).2 <;> simp only [phaseForce, h] <;>
+    exact ⟨rfl, rfl, rfl, rfl, rfl, rfl, rfl⟩
+
 theorem cyclePhases_sameCtl (sem : Sem σ δ) (p : Phase σ δ) (hp : p ∈ cyclePhases sem) (s : RState σ δ) :
     SameCtl s (p s).st := by
   simp only [cyclePhases, List.mem_cons, List.not_mem_nil, or_false] at hp
-  rcases hp with rfl | rfl | rfl | rfl | rfl | rfl | rfl | rfl | rfl
+  rcases hp with rfl | rfl | rfl | rfl | rfl | rfl | rfl | rfl | rfl | rfl
   · exact ⟨rfl, rfl, rfl, rfl, rfl, rfl, rfl⟩
   · exact ⟨rfl, rfl, rfl, rfl, rfl, rfl, rfl⟩
   · exact ⟨rfl, rfl, rfl, rfl, rfl, rfl, rfl⟩
+  · exact phaseForce_sameCtl sem s
   · exact ⟨rfl, rfl, rfl, rfl, rfl, rfl, rfl⟩
   · exact phaseTasks_sameCtl sem s
   · exact ⟨rfl, rfl, rfl, rfl, rfl, rfl, rfl⟩
-  · exact ⟨rfl, rfl, rfl, rfl, rfl, rfl, rfl⟩
+  · exact phaseForce_sameCtl sem s
   · exact ⟨rfl, rfl, rfl, rfl, rfl, rfl, rfl⟩
   · exact ⟨rfl, rfl, rfl, rfl, rfl, rfl, rfl⟩
 
@@ -461,6 +466,41 @@ theorem runPhases_sameCtl (ps : List (Phase σ δ)) (h : ∀ p ∈ ps, ∀ s, Sa
     split
     · exact hp
     · exact hp.trans (ih (fun q hq => h q (List.mem_cons_of_mem _ hq)) _)
+
+/-! ### The pending debugger writes are drained by the first phase and by nothing else -/
+
+/-- Both pending-write queues are empty. -/
+def QEmpty (s : RState σ δ) : Prop := s.varQ = [] ∧ s.lvalQ = []
+
+theorem runPhases_preserves (P : RState σ δ → Prop) (ps : List (Phase σ δ))
+    (h : ∀ p ∈ ps, ∀ s, P s → P (p s).st) (s : RState σ δ) (hs : P s) : P (runPhases ps s).st := by
+  induction ps generalizing s with
+  | nil => exact hs
+  | cons p ps ih =>
+    simp only [runPhases]
+    have hp := h p (List.mem_cons_self ..) s hs
+    split
+    · exact hp
+    · exact ih (fun q hq => h q (List.mem_cons_of_mem _ hq)) _ hp
+
+theorem cyclePhases_qempty (sem : Sem σ δ) (s : RState σ δ) : QEmpty (runPhases (cyclePhases sem) s).st := by
+  have htail : ∀ p ∈ [phaseRead sem, phaseDebug, phaseForce sem, phaseLatch sem, phaseTasks sem,
+      phasePublish sem, phaseForce sem, phaseWrite sem, phasePersist sem], ∀ s : RState σ δ,
+      QEmpty s → QEmpty (p s).st := by
+    intro p hp s hs
+    simp only [List.mem_cons, List.not_mem_nil, or_false] at hp
+    rcases hp with rfl | rfl | rfl | rfl | rfl | rfl | rfl | rfl | rfl
+    · exact hs
+    · exact hs
+    · cases h : (applyWrites s.forced s.io).2 <;> simp only [phaseForce, h] <;> exact hs
+    · exact hs
+    · cases h : (sem.plan s.now s.store).2.2 <;> simp only [phaseTasks, h] <;> exact hs
+    · exact hs
+    · cases h : (applyWrites s.forced s.io).2 <;> simp only [phaseForce, h] <;> exact hs
+    · exact hs
+    · exact hs
+  simp only [cyclePhases, runPhases, phaseVarWrites]
+  exact runPhases_preserves QEmpty _ htail _ ⟨rfl, rfl⟩
 
 /-! ### First-failure semantics of the phase sequence -/
 
@@ -650,7 +690,8 @@ theorem applyFault_safe (sem : Sem σ δ) (s : RState σ δ) (e : Err) (dec : Fa
 theorem applyFault_ctl (sem : Sem σ δ) (s : RState σ δ) (e : Err) (dec : FaultDecision) :
     (applyFault sem s e dec).st.policy = s.policy ∧ (applyFault sem s e dec).st.wdAction = s.wdAction ∧
     (applyFault sem s e dec).st.safe = s.safe ∧ (applyFault sem s e dec).st.now = s.now ∧
-    (applyFault sem s e dec).st.cycles = s.cycles ∧ (applyFault sem s e dec).st.store = s.store := by
+    (applyFault sem s e dec).st.cycles = s.cycles ∧ (applyFault sem s e dec).st.store = s.store ∧
+    (applyFault sem s e dec).st.varQ = s.varQ ∧ (applyFault sem s e dec).st.lvalQ = s.lvalQ := by
   simp only [applyFault]
   split <;> simp [applySafeState]
 
